@@ -15,7 +15,7 @@ def make_job(src, cfg):
 def run(tier, seed):
     chk = core.Check("C05", tier, seed)
     thorough = tier == "thorough"
-    n_opt, n_core = (60000, 20000) if thorough else (5000, 1500)
+    n_opt, n_core = (60000, 20000) if thorough else (2200, 600)
     eng = diffrun.Engines(tag="c05", node=False)
     try:
         progs = [gen_opt.generate(seed, i) for i in range(n_opt)]
